@@ -148,6 +148,8 @@ def main(argv):
     except Exception as e:
         c.broken.append("translator(flatten) cannot read the rule tables: %s" % e)
         return c.finish(rule="translator failed")
+    # (code patterns the translator does not understand are reported by c.proofs(); the cases below still run
+    #  so that a concrete failing input is found)
     icu = ICU(impl)
     langs = list(P["langvar"].items())        # (variable, code)
     toks = alphabet(P)
@@ -166,6 +168,7 @@ def main(argv):
         for frm, to in t:
             lines += [frm + frm, "a" + frm, frm + "a", "a " + frm + " b", frm + "\U0001F600", "\U0001F600" + frm]
     lines += ["a\U0001F600b", "\U0001F600", "\U0001F600\U0001F600", "x\U0010FFFF", "' s", "' s ", "a' s", "' sfoo", "' s x", "' s\U0001F600",
+              "' S", "a' S b", "5 - YEAR - OLD", "& QUOT ;", "& Amp ;", "Æ' S", "' s\u00a0x", "' s\u2028", "' s\tx", "' s\u3000", "' s\u0085", "' s\u200b", "' s\u00a0", "5 - year - old\u00a0k",
               "5 - year - old", "5 - year - old ", "5 - year - olds", "5 - years - old\t", "''' s ", "````", "& amp ; quot ;", "& amp", "& amp ;;",
               "3{4{{", "ΑΣ ΑΣΑ", "İstanbul", "ǅ", "ﬁﬁ", "Å̧"]
     for i in range(300 if quick else 5000):
@@ -209,7 +212,7 @@ def main(argv):
     # ---- tool level: bin/process_unicode x 8 flag sets x languages
     inputs = []
     fixed = [["A“x” É", "B“y” É", "C“z” É", "D“w” É", "E“v” É"], ["ﬁ", "ﬁ", "ﬁ"], ["a\U0001F600b"], [""], ["", "", "x"],
-             ["' s", "5 - year - old", "``q''"], ["İ", "ΑΣ", "①"]]
+             ["' s", "5 - year - old", "``q''"], ["İ", "ΑΣ", "①"], ["a' S", "5 - YEAR - OLD x", "& QUOT ;"]]
     for f in fixed:
         inputs.append(f)
     for i in range(12 if quick else 150):
